@@ -275,7 +275,7 @@ class GeneInterval(AbstractFeatureIntervalCollection):
         else:
             ids = id_or_ids
 
-        txs = [self.guid_map[i] for i in ids if i in self.guid_map]
+        txs = [self.guid_map[i] for i in dict.fromkeys(ids) if i in self.guid_map]
         if txs:
             return GeneInterval(
                 transcripts=txs,
